@@ -23,7 +23,7 @@ from hpstatic.terms import (sym, intern, show, subterms, calls_in, NONE, num, kw
                             atoms_of)
 from . import c01
 
-MUTATION_TARGETS = {'holopy/scattering/imageformation.py': ['_calculate_scattered_field_from_superposition', '_calculate_multiple_color_scattered_field', '_calculate_single_color_scattered_field', 'select_scatterer_by_illumination'], 'holopy/scattering/scatterer/composite.py': ['get_component_list'], 'holopy/core/metadata.py': ['to_vector', 'dict_to_array']}
+MUTATION_TARGETS = {'holopy/scattering/imageformation.py': ['_calculate_scattered_field_from_superposition', '_calculate_multiple_color_scattered_field', '_calculate_single_color_scattered_field', 'select_scatterer_by_illumination'], 'holopy/scattering/scatterer/composite.py': ['get_component_list'], 'holopy/core/metadata.py': ['to_vector', 'dict_to_array'], 'holopy/scattering/interface.py': ['prep_schema']}
 
 LEVEL = 'other'
 META = dict(
@@ -54,6 +54,7 @@ def run(check, prog):
     superposition(check, prog)
     channels(check, prog)
     tables(check, prog)
+    illumination_preparation(check, prog)
     canon = Canon()
     c01.f3_vectors(check, prog, canon)
     # the field of a member must not depend on which members were computed
@@ -384,3 +385,153 @@ def tables(check, prog):
                   'the schema dimension whose coordinates equal its keys; no such '
                   'dimension -> ValueError', loc, fail_detail='returns under %s' % [
                       [(show(t)[:50], p) for t, p in o.cond] for o in res.returns])
+
+
+def illumination_preparation(check, prog):
+    """S4: prep_schema pairs wavelength k with polarisation k.
+
+    The channel loop (S3) computes channel k from schema.illum_wavelen.sel(k) and
+    schema.illum_polarization.sel(k); that equals "the single-colour calculation
+    with that channel's wavelength and polarisation" only if prep_schema labelled
+    the wavelengths with the polarisations' channel labels in the same order (or
+    broadcast one polarisation over the wavelengths).  Read as a truth table over
+    the guard atoms, so that the arrangement of the branches does not matter."""
+    import itertools
+    from hpstatic.logic import select, resolve
+    q = 'holopy.scattering.interface.prep_schema'
+    fd = prog.func(q)
+    loc = prog.loc(q, fd)
+    UM = 'holopy.core.metadata.update_metadata'
+    EA = 'holopy.core.utils.ensure_array'
+    it = Interp(prog, max_depth=1, opaque=[UM, EA])
+    v = it.analyze(q).ret
+    ums = [c for c in calls_in(v, UM) if not calls_in(c[2][0], UM) and
+           c[2] and c[2][0] == sym(fd.args.args[0].arg)]
+    if not ums:
+        check.bad('S4-channel-pairing', 'prep_schema',
+                  'the detector is not passed through update_metadata first', loc)
+        return
+    D = ums[0]
+    umfd = prog.func(UM)
+    umnames = [a.arg for a in umfd.args.args]
+
+    def slots(c):
+        out = dict(zip(umnames, c[2]))
+        out.update(dict(c[3]))
+        return out
+    s0 = slots(D)
+    ok = all(s0.get(a.arg) == sym(a.arg) for a in fd.args.args[1:])
+    check.require(ok, 'S4-channel-pairing', 'prep_schema first update_metadata',
+                  'medium index, wavelength and polarisation arguments reach the '
+                  'slots of the same name', loc,
+                  fail_detail='update_metadata(%s)' % ', '.join(
+                      '%s=%s' % (k, show(x)[:30]) for k, x in s0.items()))
+    wl = intern(('call', EA, (('attr', D, 'illum_wavelen'),), ()))
+    pol = intern(('attr', D, 'illum_polarization'))
+    ILL = ('const', 'illumination')
+    a_many = intern(('cmp', '<', num(1), ('call', 'len', (wl,), ())))
+    a_2d = intern(('cmp', '==', ('attr', ('call', EA, (pol,), ()), 'ndim'), num(2)))
+    a_pol = intern(('cmp', 'in', ILL, ('attr', pol, 'dims')))
+    a_da = intern(('call', 'isinstance', (wl, ('extref', 'xarray.DataArray')), ()))
+    a_one = intern(('cmp', '==', ('call', 'len', (wl,), ()), num(1)))
+    a_det = intern(('cmp', 'in', ILL, ('attr', D, 'dims')))
+    from hpstatic.logic import cmp_is
+
+    def match(t, atom):
+        if t == atom:
+            return True
+        return atom[0] == 'cmp' and atom[1] in ('<', '==') and \
+            cmp_is(t, atom[1], atom[2], atom[3])
+
+    def is_dims(t):
+        return t == ILL or (t[0] in ('list', 'tuple') and t[1] == (ILL,))
+
+    def labelled(t, data_ok, labels):
+        """xr.DataArray(<data>, dims=illumination, coords={illumination: labels})"""
+        if not (t[0] == 'call' and t[1] == 'xarray.DataArray' and len(t[2]) >= 1):
+            return False
+        k = dict(t[3])
+        dims = k.get('dims', t[2][2] if len(t[2]) > 2 else None)
+        coords = k.get('coords', t[2][1] if len(t[2]) > 1 else None)
+        return data_ok(t[2][0]) and dims is not None and is_dims(dims) and \
+            coords is not None and coords[0] == 'dict' and \
+            tuple(coords[1]) == ((ILL, labels),)
+
+    nchan = intern(('call', 'len', (('attr', pol, 'illumination'),), ()))
+
+    def repeated(t):
+        return t == ('call', ('attr', wl, 'repeat'), (nchan,), ()) or \
+            t == ('call', 'numpy.repeat', (wl, nchan), ()) or \
+            t == ('call', 'numpy.tile', (wl, nchan), ())
+    bad = []
+    rows = 0
+    for many, twod, inpol, isda, one, indet in itertools.product((True, False), repeat=6):
+        if many and one:
+            continue                      # len > 1 and len == 1 cannot both hold
+        val = {a_many: many, a_2d: twod, a_pol: inpol, a_da: isda, a_one: one,
+               a_det: indet}
+
+        def hyp(t):
+            for a, b in val.items():
+                if match(t, a):
+                    return b
+            return None
+        row = 'len(wavelen)>1=%s, polarization 2-d=%s, polarization has channels=%s, ' \
+            'wavelen is labelled=%s, len(wavelen)==1=%s, detector has channels=%s' % (
+                many, twod, inpol, isda, one, indet)
+        leaf = select(v, hyp)
+        rows += 1
+        if leaf is None:
+            bad.append(row + ': undecided')
+            continue
+        if not many and not twod:
+            if leaf != D:
+                bad.append(row + ': a single-channel schema is changed: ' + show(leaf)[:80])
+            continue
+        if not (leaf[0] == 'call' and leaf[1] == UM):
+            bad.append(row + ': result is not update_metadata(...)')
+            continue
+        s = slots(leaf)
+        X = resolve(s.get('a', NONE), hyp)
+        W = resolve(s.get('illum_wavelen', NONE), hyp)
+        P = resolve(s.get('illum_polarization', NONE), hyp)
+        if any(x[0] == 'ite' for y in (X, W, P) for x in subterms(y)) or \
+                set(s) - {'a', 'illum_wavelen', 'illum_polarization'}:
+            bad.append(row + ': undecided arguments')
+            continue
+        first = intern(('idx', ('attr', D, 'illumination'), num(0)))
+        if indet:
+            kx = dict(X[3]) if X[0] == 'call' else {}
+            okx = X[0] == 'call' and X[1] in (('attr', D, 'sel'), ('attr', D, 'isel')) \
+                and not X[2] and set(kx) == {'illumination', 'drop'} and \
+                kx['drop'] == ('const', True) and \
+                kx['illumination'] == (first if X[1][2] == 'sel' else num(0))
+        else:
+            okx = X == D
+        if not okx:
+            bad.append(row + ': detector handed on as ' + show(X)[:80])
+        if isda:
+            okw = W == wl
+        elif inpol:
+            okw = labelled(W, repeated if one else (lambda t: t == wl),
+                           intern(('attr', pol, 'illumination')))
+        else:
+            okw = labelled(W, lambda t: t == wl, wl)
+        if not okw:
+            bad.append(row + ': wavelengths become ' + show(W)[:100])
+        if inpol:
+            okp = P == pol
+        else:
+            okp = P[0] == 'idx' and P[2] == num(0) and P[1][0] == 'call' and \
+                P[1][1] == 'xarray.broadcast' and P[1][2] == (pol, W) and \
+                dict(P[1][3]).get('exclude') in (
+                    ('list', (('const', 'vector'),)), ('tuple', (('const', 'vector'),)))
+        if not okp:
+            bad.append(row + ': polarizations become ' + show(P)[:100])
+    check.floor('rows of the illumination-preparation table', rows, 40)
+    check.require(not bad, 'S4-channel-pairing', 'prep_schema',
+                  'a single-channel schema passes unchanged; otherwise wavelength k '
+                  'carries the channel label of polarisation k (a single wavelength is '
+                  'repeated per channel), or one polarisation is broadcast over the '
+                  'wavelengths; a detector that already has channels contributes its '
+                  'first one (%d rows)' % rows, loc, fail_detail='; '.join(bad[:3]))
